@@ -596,10 +596,10 @@ Proof. apply set_seq_num_pres; try ins_solve; intros _; cbn; reflexivity. Qed.
 
 Lemma replay_loop_aw c rows : forall a b, keeps aw_or_dead (replay_loop c rows a b).
 Proof.
-  induction rows as [|r rows IH]; intros a b; cbn [replay_loop]; [keeps_tac|].
+  induction rows as [|r rows IH]; intros a b; cbn [replay_loop]; cbv zeta; [keeps_tac|].
   keeps_step; [keeps_tac|]. keeps_step; [keeps_tac|].
   destruct (_ || _); [apply IH|].
-  keeps_step; [destruct (a <? b); [apply send_msg_keeps_aw|keeps_tac]|].
+  cbv zeta. keeps_step; [destruct (_ <? _); [apply send_msg_keeps_aw|keeps_tac]|].
   keeps_step; [keeps_tac|]. keeps_step; [keeps_tac|]. keeps_step; [keeps_tac|]. keeps_step; [keeps_tac|].
   keeps_step; [apply send_msg_keeps_aw|apply IH].
 Qed.
@@ -612,10 +612,10 @@ Proof. apply (send_msg_keeps_st c m (fun s => s = ST_AWAITING)). stlia. Qed.
 
 Lemma replay_loop_awaiting c rows : forall a b, keeps awaiting (replay_loop c rows a b).
 Proof.
-  induction rows as [|r rows IH]; intros a b; cbn [replay_loop]; [keeps_tac|].
+  induction rows as [|r rows IH]; intros a b; cbn [replay_loop]; cbv zeta; [keeps_tac|].
   keeps_step; [keeps_tac|]. keeps_step; [keeps_tac|].
   destruct (_ || _); [apply IH|].
-  keeps_step; [destruct (a <? b); [apply send_msg_keeps_awaiting|keeps_tac]|].
+  cbv zeta. keeps_step; [destruct (_ <? _); [apply send_msg_keeps_awaiting|keeps_tac]|].
   keeps_step; [keeps_tac|]. keeps_step; [keeps_tac|]. keeps_step; [keeps_tac|]. keeps_step; [keeps_tac|].
   keeps_step; [apply send_msg_keeps_awaiting|apply IH].
 Qed.
@@ -627,22 +627,12 @@ Proof.
   assert (Hr : forall a b, keeps awaiting (recover_out a b)).
   { intros. apply (keeps_pres st (fun s => s = ST_AWAITING)). apply recover_out_pres. }
   unfold process_resend. apply keeps_bind_getw. intros w0 H0 w ->.
-  revert w0 H0.
-  enough (forall w0, awaiting w0 -> keeps awaiting
-     ((if negb (st w0 =? ST_AWAITING) then state_set ST_HANDLING else ret tt) ;;;
-      b0 <- lift (get_int T7 m) ;; e0 <- lift (get_int T16 m) ;;
-      rows <- recover_out (if b0 <? 1 then 1 else b0) (if e0 =? 0 then c_maxsize c else e0) ;;
-      w1 <- getw ;;
-      g <- replay_loop c rows (if b0 <? 1 then 1 else b0) (if b0 <? 1 then 1 else b0) ;;
-      (if nout w1 <? snd g then raise XAssertion else ret tt) ;;;
-      (if fst g <? nout w1 then send_msg c (gap_fill (fst g) (z_to_dec (nout w1))) else ret tt) ;;;
-      w2 <- getw ;; (if negb (st w2 =? ST_AWAITING) then state_set ST_ACTIVE else ret tt))) as H
-    by (intros w0 H0; apply H; exact H0).
-  intros w0 H0. unfold awaiting in H0.
+  match goal with |- awaiting (rw (?k w0)) => assert (Hk : keeps awaiting k); [|apply Hk; exact H0] end.
+  unfold awaiting in H0.
   keeps_step. { rewrite H0. cbn. keeps_tac. }
   keeps_step; [keeps_tac|]. keeps_step; [keeps_tac|]. keeps_step; [apply Hr|].
   keeps_step; [keeps_tac|]. keeps_step; [apply replay_loop_awaiting|].
-  keeps_step; [keeps_tac|].
+  keeps_step; [keeps_tac|]. cbv zeta.
   keeps_step; [destruct (_ <? _); [apply send_msg_keeps_awaiting|keeps_tac]|].
   apply keeps_bind_getw. intros w2 H2 w ->. unfold awaiting in H2. rewrite H2. cbn. exact H2.
 Qed.
